@@ -1,6 +1,7 @@
 """C04 — persistence image pixels are weighted kernel mass over each pixel."""
 import numpy as np
 
+from .. import forms as vforms
 from .. import imgcfg
 from ..oracles import image as OI
 
@@ -102,13 +103,18 @@ def run_case(ctx, k, rng):
         dgm[:, 1] = dgm[:, 0] + dgm[:, 1]
         bp = np.column_stack([dgm[:, 0], dgm[:, 1] - dgm[:, 0]])     # what a caller means by (birth, death)
     arg = dgm.astype(np.int64) if integer else dgm
+    form = "int64" if integer else "float64"
+    if not integer and n and rng.random() < 0.3:
+        arg, form = vforms.relayout(rng, dgm)        # same values in another memory layout
+    skew_arg = vforms.npflag(rng, skew)
     ctx.set_payload({"ctor": {**geom, "kernel": kdesc, "weight": {a: (b if not callable(b) else b.__name__) for a, b in wkw.items()}},
-                     "public": pub, "diagram": arg, "skew": skew})
+                     "public": pub, "diagram": np.asarray(arg), "given_as": form, "skew": skew})
+    ctx.seen("diagram argument forms", form)
     if n == 0:
         return     # empty diagrams are C11's business
     try:
         ctx.ran()
-        img = np.asarray(P.transform(arg, skew=skew))
+        img = np.asarray(P.transform(arg, skew=skew_arg))
     except Exception as e:
         ctx.exception("transform returns", e)
         return
